@@ -1086,6 +1086,7 @@ func (g *gen) orderStmt(b *block, sc *scope) {
 		} else {
 			b.add("println(%q, len(%s))", tag, res)
 		}
+		b.add("println(%q, cap(%s), cap(%s[1:]), len(%s[:1:%d]), cap(%s[:1:%d]))", tag, full, full, full, c, full, c)
 		b.add("for _, e := range %s {\n\tprintln(%q, e)\n}", full, tag)
 		b.add("for _, e := range %s {\n\tprintln(%q, e)\n}", res, tag)
 	case 0:
